@@ -506,6 +506,25 @@ func IntMod(a, m *Term) *Term {
 	return t
 }
 
+// IntFloorDivPos is floor division by a positive constant (arithmetic shift
+// right); the interval of the operand, when known, carries over.
+func IntFloorDivPos(a, p *Term) *Term {
+	if a.Const {
+		q, m := new(big.Int).DivMod(a.CI, p.CI, new(big.Int))
+		_ = m
+		return IntT(q)
+	}
+	t := mk(SInt, 0, "(div %s %s)", a.S, p.S)
+	if a.Lo != nil && a.Hi != nil {
+		fl := func(x *big.Int) *big.Int { q, _ := new(big.Int).DivMod(x, p.CI, new(big.Int)); return q }
+		t.Lo, t.Hi = fl(a.Lo), fl(a.Hi)
+		if t.Lo.Cmp(t.Hi) == 0 {
+			return IntT(t.Lo)
+		}
+	}
+	return t
+}
+
 func cmpRange(a, b *Term) (known bool, lt, le bool) {
 	if a.Hi != nil && b.Lo != nil && a.Hi.Cmp(b.Lo) < 0 {
 		return true, true, true
